@@ -91,6 +91,7 @@ impl Module for RecBank {
         QueryC: CustomQuery + DeserializeOwned + 'static,
     {
         log("bank", "execute", sender.as_str(), format!("{:?}", msg));
+        storage.set(b"module-bookkeeping-bank", b"1");
         if fails("bank") {
             anyhow::bail!("module bank configured to fail")
         }
@@ -123,12 +124,14 @@ macro_rules! rec_module {
             type ExecT = $exec;
             type QueryT = $query;
             type SudoT = $sudo;
-            fn execute<ExecC, QueryC>(&self, _api: &dyn Api, _storage: &mut dyn Storage, _router: &dyn CosmosRouter<ExecC = ExecC, QueryC = QueryC>, _block: &BlockInfo, sender: Addr, msg: $exec) -> AnyResult<AppResponse>
+            fn execute<ExecC, QueryC>(&self, _api: &dyn Api, storage: &mut dyn Storage, _router: &dyn CosmosRouter<ExecC = ExecC, QueryC = QueryC>, _block: &BlockInfo, sender: Addr, msg: $exec) -> AnyResult<AppResponse>
             where
                 ExecC: CustomMsg + DeserializeOwned + 'static,
                 QueryC: CustomQuery + DeserializeOwned + 'static,
             {
                 log($tag, "execute", sender.as_str(), format!("{:?}", msg));
+                // the module's own bookkeeping, written before it decides: a refusal takes it back
+                storage.set(concat!("module-bookkeeping-", $tag).as_bytes(), b"1");
                 answer($tag)
             }
             fn query(&self, _api: &dyn Api, _storage: &dyn Storage, _querier: &dyn Querier, _block: &BlockInfo, request: $query) -> AnyResult<Binary> {
@@ -159,24 +162,26 @@ impl Gov for RecGov {}
 
 pub struct RecStargate;
 impl Stargate for RecStargate {
-    fn execute_stargate<ExecC, QueryC>(&self, _api: &dyn Api, _storage: &mut dyn Storage, _router: &dyn CosmosRouter<ExecC = ExecC, QueryC = QueryC>, _block: &BlockInfo, sender: Addr, type_url: String, value: Binary) -> AnyResult<AppResponse>
+    fn execute_stargate<ExecC, QueryC>(&self, _api: &dyn Api, storage: &mut dyn Storage, _router: &dyn CosmosRouter<ExecC = ExecC, QueryC = QueryC>, _block: &BlockInfo, sender: Addr, type_url: String, value: Binary) -> AnyResult<AppResponse>
     where
         ExecC: CustomMsg + DeserializeOwned + 'static,
         QueryC: CustomQuery + DeserializeOwned + 'static,
     {
         log("stargate", "execute_stargate", sender.as_str(), format!("{} {}", type_url, value));
+        storage.set(b"module-bookkeeping-stargate", b"1");
         answer("stargate")
     }
     fn query_stargate(&self, _api: &dyn Api, _storage: &dyn Storage, _querier: &dyn Querier, _block: &BlockInfo, path: String, data: Binary) -> AnyResult<Binary> {
         log("stargate", "query_stargate", "", format!("{} {}", path, data));
         answer_q("stargate")
     }
-    fn execute_any<ExecC, QueryC>(&self, _api: &dyn Api, _storage: &mut dyn Storage, _router: &dyn CosmosRouter<ExecC = ExecC, QueryC = QueryC>, _block: &BlockInfo, sender: Addr, msg: AnyMsg) -> AnyResult<AppResponse>
+    fn execute_any<ExecC, QueryC>(&self, _api: &dyn Api, storage: &mut dyn Storage, _router: &dyn CosmosRouter<ExecC = ExecC, QueryC = QueryC>, _block: &BlockInfo, sender: Addr, msg: AnyMsg) -> AnyResult<AppResponse>
     where
         ExecC: CustomMsg + DeserializeOwned + 'static,
         QueryC: CustomQuery + DeserializeOwned + 'static,
     {
         log("stargate", "execute_any", sender.as_str(), format!("{} {}", msg.type_url, msg.value));
+        storage.set(b"module-bookkeeping-stargate", b"1");
         answer("stargate")
     }
     fn query_grpc(&self, _api: &dyn Api, _storage: &dyn Storage, _querier: &dyn Querier, _block: &BlockInfo, request: GrpcQuery) -> AnyResult<Binary> {
@@ -559,6 +564,7 @@ fn case_json(c: &Case) -> Value {
 
 fn run_case(ctx: &Ctx, w: &mut RWorld, c: &Case) -> u64 {
     *w.app.storage_mut() = w.genesis.clone();
+    w.app.storage_mut().data.retain(|k, _| !k.starts_with(b"module-bookkeeping-"));
     LOG.with(|l| l.borrow_mut().clear());
     FAIL.with(|f| *f.borrow_mut() = c.fail_mask);
     let emitter = match c.origin {
@@ -687,6 +693,14 @@ fn run_case(ctx: &Ctx, w: &mut RWorld, c: &Case) -> u64 {
             let want_payload = format!("{} id=77 ok={} payload={} cause_visible={}", emitter, !module_fails, Binary::from(b"pl"), module_fails);
             if r.payload != want_payload {
                 ctx.violation("c17:reply-content", json!({"case": cj(), "got": r.payload, "want": want_payload}));
+            }
+        }
+        // a refusal that was caught: what the refusing module wrote before it refused is gone
+        if module_fails {
+            let refusing = if is_wasm(c.kind) { "bank" } else { module };
+            let key = format!("module-bookkeeping-{}", refusing).into_bytes();
+            if w.app.storage().data.contains_key(&key) {
+                ctx.violation("c17:failed-module-left-state:caught-refusal", json!({"case": cj(), "detail": "the transaction went on after the refusal was caught, and kept what the refusing module had written before it refused", "module": refusing}));
             }
         }
         let has = |addr: &str, key: &[u8]| w.app.contract_storage(&Addr::unchecked(addr)).get(key).is_some();
